@@ -1705,7 +1705,7 @@ Q(name="e2_black_hole_purges_datagrams_slice", props=["C16", "C13"], func=r"conn
   modifies=lambda c: {r"on_mtu_update$": ["*call:"], r"Datagrams::max_size$": []},
   functions=["Connection::detect_lost_packets (slice: reaction to a detected black hole)"], pre=lambda c: "true", post=bh_post,
   bounds="from an arbitrary state: when MtuDiscovery::black_hole_detected reports a black hole, the congestion controller is told the current (reduced) MTU and the outgoing datagram queue is purged with the Datagrams::max_size value computed AFTER that reduction; without a black hole nothing is purged; located through the source text",
-  replay=("conn_black_hole_datagrams_native", lambda m: [dict(x=0)]))
+  replay=("conn_black_hole_datagrams_native", lambda m: [dict(x=0), dict(x=1)]))
 
 
 # ------------------------------------------------------------------ C13: a packet is padded out to the full segment size only when this datagram's own budget covers a full segment (slice)
